@@ -76,12 +76,12 @@ Definition show_query (d : rdata) (q : rquery) : string :=
 Definition exc_of (l : list str) (x : efield) : str :=
   nth (match x with XString => 0 | XFullString => 1 | XClassName => 2 | XClassQualname => 3 end)%nat l [].
 
-Definition run_save (script : bool) (fa : frames_arg) (va ea : vars_arg) (cur : option frame) (e : exn)
+Definition run_save (script escaped : bool) (fa : frames_arg) (va ea : vars_arg) (cur : option frame) (e : exn)
            (rxt : list (str * str * nat)) (validt : list (str * bool)) (unpk : list N)
            (umask : N) (pre : option N) (open_ok dump_ok : bool)
            (excs : list str) (queries : list rquery) : string :=
   let st := mkFs umask (match pre with Some m => Some (m, COld) | None => None end) in
-  let '(r, st') := saveframe (rx_lookup rxt) (valid_lookup validt) (pk_of unpk) script fa va ea cur e open_ok dump_ok st in
+  let '(r, st') := saveframe (rx_lookup rxt) (valid_lookup validt) (pk_of unpk) script escaped fa va ea cur e open_ok dump_ok st in
   match r with
   | Err er => show_obj (("result", show_err er) :: show_fs st')
   | Ok (o, d) =>
